@@ -438,6 +438,7 @@ func (el *EventList) uncompress(c *compressedEventList) {
 	// The indices and hashes of events that come from a compressed event are always valid
 	// since we just computed them ourselves
 	el.verified = true
+	el.validationErr = nil
 }
 
 func (el *EventList) MarshalJSON() ([]byte, error) {
